@@ -845,6 +845,11 @@ func (mvcc *MVCCLevelDB) Prewrite(req *kvrpcpb.PrewriteRequest) []error {
 		op := m.GetOp()
 		if (op == kvrpcpb.Op_Insert || op == kvrpcpb.Op_CheckNotExists) && forUpdateTS == 0 {
 			v, err := mvcc.getValue(m.Key, startTS, kvrpcpb.IsolationLevel_SI, req.Context.ResolvedLocks)
+			if locked, ok := err.(*ErrLocked); ok && locked.StartTS == startTS {
+				// The key is locked by this transaction itself: a repeated prewrite, which
+				// prewriteMutation answers (as in TiKV, a duplicated prewrite succeeds).
+				err = nil
+			}
 			if err != nil {
 				errs = append(errs, err)
 				anyError = true
